@@ -316,11 +316,114 @@ fn sw_transport(a: &mut Acc, b: &[u8]) {
 }
 
 /// returns (digest, number of accessor results)
+fn sw_ip_headers_slice(a: &mut Acc, h: &IpHeadersSlice) {
+    a.d(h.is_ipv4()); a.d(h.is_ipv6()); a.s(h.slice()); a.d(h.source_addr()); a.d(h.destination_addr()); a.d(h.next_header());
+    a.d(h.payload_ip_number()); a.d(h.version()); a.d(h.header_len()); a.d(h.try_to_header());
+    if let Some(x) = h.ipv4() { a.s(x.slice()); }
+    if let Some(x) = h.ipv4_exts() { a.d(x.to_header()); a.d(x.is_empty()); }
+    if let Some(x) = h.ipv6() { a.s(x.slice()); }
+    if let Some(x) = h.ipv6_exts() { a.s(x.slice()); a.d(x.is_fragmenting_payload()); }
+}
+fn sw_vlan_slice(a: &mut Acc, v: &Option<VlanSlice>) {
+    if let Some(v) = v {
+        a.d(v.to_header()); a.d(v.to_header().next_header()); a.s(v.payload().payload); a.d(v.payload());
+        if let VlanSlice::DoubleVlan(d) = v { a.d(d.to_header()); a.s(d.outer.slice()); a.s(d.inner.slice()); }
+    } else {
+        a.d(0);
+    }
+}
+/// whole-packet results and the IP boundary types: every convenience accessor and conversion
+#[allow(deprecated)]
+fn sw_packet(a: &mut Acc, b: &[u8]) {
+    match IpSlice::from_slice(b) {
+        Ok(x) => {
+            a.d(x.ipv4().is_some()); a.d(x.ipv6().is_some()); sw_ip_headers_slice(a, &x.header()); a.d(x.to_header()); a.d(x.is_fragmenting_payload());
+            a.d(x.source_addr()); a.d(x.destination_addr()); a.s(x.payload().payload); a.d(x.payload()); a.d(x.payload_ip_number());
+            if let Some(v) = x.ipv4() { a.d(v.payload_ip_number()); a.d(v.is_payload_fragmented()); sw_ip_headers_slice(a, &IpHeadersSlice::from((v.header(), v.extensions()))); sw_ip_headers_slice(a, &IpHeadersSlice::from(v.header())); }
+            if let Some(v) = x.ipv6() { a.d(v.is_payload_fragmented()); sw_ip_headers_slice(a, &IpHeadersSlice::from((v.header(), v.extensions().clone()))); sw_ip_headers_slice(a, &IpHeadersSlice::from(v.header())); }
+            let n = match &x { IpSlice::Ipv4(v) => NetSlice::from(v.clone()), IpSlice::Ipv6(v) => NetSlice::from(v.clone()) };
+            a.d(n.is_ip()); a.d(n.is_ipv4()); a.d(n.is_ipv6()); a.d(n.is_arp()); a.d(n.ipv4_ref().is_some()); a.d(n.ipv6_ref().is_some()); a.d(n.arp_ref().is_some());
+            if let Some(p) = n.ip_payload_ref() { a.s(p.payload); a.d(p); }
+            a.d(match x.clone() { IpSlice::Ipv4(v) => IpSlice::from(v), IpSlice::Ipv6(v) => IpSlice::from(v) } == x);
+        }
+        Err(e) => a.d(e),
+    }
+    match LaxIpSlice::from_slice(b) {
+        Ok((x, st)) => {
+            a.d(x.ipv4().is_some()); a.d(x.ipv6().is_some()); a.d(x.is_fragmenting_payload()); a.d(x.source_addr()); a.d(x.destination_addr());
+            a.s(x.payload().payload); a.d(x.payload()); a.d(x.payload_ip_number()); a.d(st);
+            if let Some(v) = x.ipv4() { a.d(v.payload_ip_number()); a.d(v.is_payload_fragmented()); }
+            if let Some(v) = x.ipv6() { a.d(v.is_payload_fragmented()); }
+            let n = match &x { LaxIpSlice::Ipv4(v) => LaxNetSlice::from(v.clone()), LaxIpSlice::Ipv6(v) => LaxNetSlice::from(v.clone()) };
+            if let Some(p) = n.ip_payload_ref() { a.s(p.payload); a.d(p); }
+            a.d(match x.clone() { LaxIpSlice::Ipv4(v) => LaxIpSlice::from(v), LaxIpSlice::Ipv6(v) => LaxIpSlice::from(v) } == x);
+        }
+        Err(e) => a.d(e),
+    }
+    let mut strict = vec![SlicedPacket::from_ethernet(b).ok(), SlicedPacket::from_linux_sll(b).ok(), SlicedPacket::from_ip(b).ok()];
+    for et in [0x0800u16, 0x86dd, 0x8100, 0x88e5, 0x0806] {
+        strict.push(SlicedPacket::from_ether_type(EtherType(et), b).ok());
+    }
+    for x in strict.iter().flatten() {
+        a.d(x.payload_ether_type());
+        match x.ether_payload() { Some(p) => { a.s(p.payload); a.d(p); } None => a.d(0) }
+        match x.ip_payload() { Some(p) => { a.s(p.payload); a.d(p); } None => a.d(0) }
+        a.d(x.is_ip_payload_fragmented()); sw_vlan_slice(a, &x.vlan()); a.d(x.vlan_ids());
+        if let Some(l) = &x.link {
+            a.d(l.to_header()); match l.ether_payload() { Some(p) => { a.s(p.payload); a.d(p); } None => a.d(0) }
+            if let Some(h) = l.to_header() {
+                a.d(h.header_len()); let mut w: Vec<u8> = vec![]; a.d(h.write(&mut w).is_ok()); a.d(w);
+                a.d(h.clone().ethernet2()); a.d(h.clone().linux_sll());
+                let mut m = h.clone(); a.d(m.mut_ethernet2().is_some()); a.d(m.mut_linux_sll().is_some());
+            }
+        }
+        for e in &x.link_exts {
+            a.d(e.header_len()); a.d(e.to_header()); a.d(e.to_header().header_len());
+            match e.ether_payload() { Some(p) => { a.s(p.payload); a.d(p); } None => a.d(0) }
+            if let LinkExtSlice::Macsec(m) = e { a.d(m.header.to_header().next_ether_type()); a.d(m.header.to_header().expected_payload_len()); }
+        }
+        if let Some(t) = &x.transport {
+            match t { TransportSlice::Tcp(t) => a.d(t.header_len()), TransportSlice::Udp(u) => { a.d(u.header_len()); a.d(u.header_len_u16()); } _ => a.d(0) }
+        }
+    }
+    let mut lax = vec![LaxSlicedPacket::from_ethernet(b).ok(), LaxSlicedPacket::from_ip(b).ok()];
+    for et in [0x0800u16, 0x86dd, 0x8100, 0x88e5, 0x0806] {
+        lax.push(Some(LaxSlicedPacket::from_ether_type(EtherType(et), b)));
+    }
+    for x in lax.iter().flatten() {
+        match x.ether_payload() { Some(p) => { a.s(p.payload); a.d(p); } None => a.d(0) }
+        match x.ip_payload() { Some(p) => { a.s(p.payload); a.d(p); } None => a.d(0) }
+        sw_vlan_slice(a, &x.vlan()); a.d(x.vlan_ids());
+        for e in &x.link_exts {
+            a.d(e.header_len()); a.d(e.to_header());
+            match e.payload() { Some(p) => { a.s(p.payload); a.d(p); } None => a.d(0) }
+        }
+    }
+    let hs = vec![PacketHeaders::from_ethernet_slice(b).ok(), PacketHeaders::from_ip_slice(b).ok(), PacketHeaders::from_ether_type(EtherType(0x8100), b).ok()];
+    for x in hs.iter().flatten() {
+        a.d(x.vlan()); a.d(x.vlan_ids());
+        if let Some(n) = &x.net {
+            a.d(n.is_ip()); a.d(n.is_ipv4()); a.d(n.is_ipv6()); a.d(n.is_arp()); a.d(n.ipv4_ref()); a.d(n.ipv6_ref()); a.d(n.arp_ref()); a.d(n.header_len());
+            if let NetHeaders::Ipv4(h, _) = n { a.d(h.payload_len()); a.d(h.options()); }
+        }
+        if let Some(t) = &x.transport {
+            let mut w: Vec<u8> = vec![]; a.d(t.write(&mut w).is_ok()); a.d(w); a.d(t.header_len());
+            let mut m = t.clone(); a.d(m.mut_udp().is_some()); a.d(m.mut_tcp().is_some()); a.d(m.mut_icmpv4().is_some()); a.d(m.mut_icmpv6().is_some());
+            if let TransportHeader::Tcp(t) = t { a.d(t.options_len()); a.d(t.options()); a.d(t.options.is_empty()); }
+        }
+    }
+    let lh = vec![LaxPacketHeaders::from_ethernet(b).ok(), LaxPacketHeaders::from_ip(b).ok(), Some(LaxPacketHeaders::from_ether_type(EtherType(0x8100), b))];
+    for x in lh.iter().flatten() {
+        a.d(x.vlan()); a.d(x.vlan_ids());
+    }
+}
+
 pub fn sweep(ctx: &Ctx, which: &str, b: &[u8]) -> (i64, u64) {
     let mut a = Acc::new(ctx);
     match which {
         "link" => sw_link(&mut a, b),
         "net" => sw_net(&mut a, b),
+        "packet" => sw_packet(&mut a, b),
         _ => sw_transport(&mut a, b),
     }
     a.finish()
